@@ -12,6 +12,13 @@ R2  spec->code: TLC prints every reachable state with the exact answers of all o
     ToSym/UTo/LTo/At (P L U for LU), Det, LogDet, Cond bounds, SolveTo/SolveVecTo variants
     (dst empty, sized, dst aliasing b, transposed / interface-only b, both transpose flags) and
     InverseTo with the specification's rationals, exactly (math/big.Rat).
+R3  code->spec: seeded random histories (50 calls, dimension <= 5, wider alphabets than R2) on a
+    live mat.Cholesky are logged (arguments, ok flag, rounded ToSym and Det) and accepted or
+    rejected by TLC against CholTrace.tla, which reuses CholMachine's Target/Classify.
+    Static part (Planted.tla): integer least squares / minimum norm / square systems stated by
+    their defining equations (Cramer on the Gram matrix), unimodular-style integer inverses,
+    powers, determinants, and Hadamard-planted spectra for EigenSym / Eigen / SVD, replayed on
+    Dense.Solve, VecDense.SolveVec, QR, LQ, SVD, LU, Dense.Inverse, Dense.Pow, mat.Det/LogDet.
 """
 import os
 
@@ -52,7 +59,12 @@ def run(ctx):
                                         name="R2 gen LU machine " + nm, timeout=2400)
         return f
 
-    ctx.parallel([r1, gen_chol, gen_lu(0), gen_lu(1)], width=4)
+    def gen_planted():
+        files["planted"] = ctx.gen("matfactor/Planted.tla", "matfactor/Planted.cfg",
+                                   subst=dict(MAXDIM=8, NVARIANTS=60 if thorough else 24, SEED=seed, EMIT="TRUE"),
+                                   name="R2 gen planted least squares / spectra (theorems checked per case)")
+
+    ctx.parallel([r1, gen_chol, gen_lu(0), gen_lu(1), gen_planted], width=4)
 
     # ---- R2: replay on the real objects ----------------------------------------------------
     nsh = 4
@@ -66,7 +78,28 @@ def run(ctx):
             thunks.append(lambda bn=bn, i=i, nm=nm: ctx.replay(
                 bins[bn], "matfactor-lu", files["lu%d" % i], [],
                 name="R2 replay LU histories %s [%s]" % (nm, bn)))
+        thunks.append(lambda bn=bn: ctx.replay(bins[bn], "matfactor-planted", files["planted"], [],
+                                               name="R2 replay planted instances [%s]" % bn))
     ctx.parallel(thunks, width=6)
+
+    # ---- R3: recorded random histories of the real Cholesky object, validated by TLC -------
+    nh = 200 if thorough else 40
+    for bn, _ in builds:
+        tr = os.path.join(ctx.work, "chol-trace-%s.ndjson" % bn)
+        summ = ctx.record(bins[bn], "matfactor-chol", tr, ["hist=%d" % nh, "steps=50", "maxn=5"],
+                          name="R3 record Cholesky histories [%s]" % bn)
+        ok, st = ctx.validate("matfactor/CholTrace.tla", "matfactor/CholTrace.cfg", tr,
+                              name="R3 validate Cholesky histories [%s]" % bn)
+        if ok:
+            ctx.traces += summ.get("traces", 0)
+        else:
+            import shutil
+            keep = os.path.join(ctx.work, "..", "..", "replays", "C06")
+            os.makedirs(keep, exist_ok=True)
+            dst = os.path.abspath(os.path.join(keep, "chol-trace-%s-seed%d.ndjson" % (bn, ctx.seed)))
+            shutil.copy(tr, dst)
+            ctx.violation("matfactor:trace-rejected:cholesky:%s" % bn, st.get("detail", "")[:700],
+                          {"trace": dst, "build": bn, "spec": "matfactor/CholTrace.tla"})
 
     ctx.assumptions += [
         "TLC/SANY and the CommunityModules Json module are trusted",
@@ -76,6 +109,8 @@ def run(ctx):
         "updates that keep the old pivot order), propagated through the exact inverse norm for solves/Det",
         "condition numbers are only bounded (1 <= Cond <= n*kappa_1 for Cholesky, Cond <= kappa_inf after LU.Factorize): "
         "the estimator is documented as an estimate",
+        "R3 projection: ToSym and Det are rounded to integers at the logging boundary, with the recorded truth value "
+        "'all within 2^-20 of an integer'",
         "a boundary update (some leading minor exactly 0) may answer either way; an LU update that is not representable "
         "with the kept pivots, or whose result is singular, must only not return a finite wrong answer silently",
     ]
@@ -90,6 +125,12 @@ def run(ctx):
 def replay(ctx, path):
     import json
     d = json.load(open(path))["data"]
+    if "trace" in d:
+        ok, st = ctx.validate(d["spec"], d["spec"].replace(".tla", ".cfg"), d["trace"])
+        print("trace accepted" if ok else "trace rejected: " + st.get("detail", "")[:800])
+        if not ok:
+            print("VIOLATION property=C06 replay=%s" % path)
+        return 0 if ok else 1
     one = os.path.join(ctx.work, "one.ndjson")
     with open(one, "w") as fh:
         fh.write(json.dumps(d["failure"]["case"]) + "\n")
